@@ -44,7 +44,14 @@ fn main() {
     match prop {
         "C11" => ints::run(&mut o, seed, thorough, replay),
         "C01" => cond::run(&mut o, seed, thorough, replay),
-        "C02" => cond::run_c02(&mut o, seed, thorough, replay),
+        "C02" => match replay {
+            Some(lines) => {
+                let (paths, own): (Vec<String>, Vec<String>) = lines.into_iter().partition(|l| l.starts_with("C07 ") || l.starts_with("C08 "));
+                if !own.is_empty() { cond::run_c02(&mut o, seed, thorough, Some(own)); }
+                genpaths::replay_paths(&mut o, paths);
+            }
+            None => { cond::run_c02(&mut o, seed, thorough, None); genpaths::run_paths_sample(&mut o, seed, thorough); }
+        },
         "C03" => locks::run(&mut o, seed, thorough, replay),
         "C05" => sigs::run(&mut o, seed, thorough, replay),
         "C06" => cond::run_c06(&mut o, seed, thorough, replay),
